@@ -7,12 +7,10 @@
 //!   rest is predicate-only (histogram `<entry>:model` vs `<entry>:predicate-only`).
 //! Histogram per entry point: `<entry>:ok|err|panic`, `<entry>:deep` = inputs that got PAST the entry point's checks.
 //! Every case is one replayable line `c11 <family> <op> <args…>` (local state is regenerated from the seeds in it).
-use crate::{c05, c09::{self, Cv}, c15, driver::Driver, oracle, report::{Failure, Report}, rng::{case_rng, TapeRng}, Opts};
-use elliptic_curve::{ff::{Field, PrimeField}, group::{Group, GroupEncoding}};
-use rand::{Rng, RngCore, SeedableRng};
+use crate::{c09, driver::Driver, oracle, report::{Failure, Report}, rng::case_rng, Opts};
+use rand::SeedableRng;
 use rand_chacha::ChaCha20Rng;
 use std::collections::HashMap;
-use std::panic::{catch_unwind, AssertUnwindSafe};
 use std::rc::Rc;
 
 mod venc;
@@ -54,7 +52,6 @@ pub(crate) fn k_enc_value(val: &str, p: &[u8]) -> Vec<u8> {
     }
     v
 }
-pub(crate) fn k_enc_valid(val: &str) -> bool { matches!(val, "identity" | "compact05" | "negate" | "generator") }
 
 /// `oracle::answer`, except that a merlin query whose operations extend those of the previous merlin query (the 512
 /// successive challenges of the RVOLE gadget vector on one growing transcript) continues from the saved transcript
@@ -91,7 +88,7 @@ pub(crate) fn answer(q: &str) -> String {
 
 pub struct Cx<'a> {
     pub drv: &'a mut Driver, pub rep: &'a mut Report, pub env: c09::Env, pub rt: tokio::runtime::Runtime,
-    pub thorough: bool, pub scale: u64, pub seed: u64,
+    pub thorough: bool, pub scale: u64,
     pub(crate) eot: HashMap<String, Rc<obl::EotSess>>, pub(crate) pprf: HashMap<String, Rc<obl::PprfSess>>, pub(crate) ss: HashMap<String, Rc<obl::SsSess>>,
     pub(crate) rv: HashMap<String, Rc<obl::RvSess>>, pub(crate) pai_key: Option<Rc<pai::ValidKey>>,
     pub timing: HashMap<String, f64>,
@@ -112,7 +109,8 @@ impl<'a> Cx<'a> {
         if deep { self.rep.hist(&format!("{entry}:deep")); }
         if idx == 0 && self.rep.samples.len() < 6 { self.rep.sample(serde_json::json!({"entry": entry, "request": clip(line), "impl": clip(imp), "model": model.as_ref().map(|m| clip(&m.1))})); }
         if cls == "panic" {
-            self.rep.pred_fail(Failure { stream: entry.into(), index: idx, request: vec![line.to_string()], impl_out: clip(imp), model_out: model.as_ref().map_or(String::new(), |m| clip(&m.1)),
+            let msg = crate::LAST_PANIC.lock().map(|g| g.clone()).unwrap_or_default();
+            self.rep.pred_fail(Failure { stream: entry.into(), index: idx, request: vec![line.to_string()], impl_out: format!("{} [{}]", clip(imp), clip(&msg)), model_out: model.as_ref().map_or(String::new(), |m| clip(&m.1)),
                 key: format!("nopanic:{entry}"), what: format!("{entry} panicked on attacker-supplied bytes (expected: Ok or Err)") });
         }
         match model {
@@ -151,7 +149,7 @@ impl<'a> Cx<'a> {
 
 fn new_cx<'a>(o: &Opts, drv: &'a mut Driver, rep: &'a mut Report) -> Cx<'a> {
     Cx { drv, rep, env: c09::Env::new(&Opts { prop: o.prop.clone(), tier: "quick".into(), seed: o.seed, driver: o.driver.clone(), out: o.out.clone(), replay: None, scale: 1 }),
-         rt: tokio::runtime::Builder::new_current_thread().build().unwrap(), thorough: o.tier == "thorough", scale: o.scale.max(1), seed: o.seed,
+         rt: tokio::runtime::Builder::new_current_thread().build().unwrap(), thorough: o.tier == "thorough", scale: o.scale.max(1),
          eot: HashMap::new(), pprf: HashMap::new(), ss: HashMap::new(), rv: HashMap::new(), pai_key: None, timing: HashMap::new() }
 }
 
@@ -178,8 +176,5 @@ pub fn run(o: &Opts, drv: &mut Driver, rep: &mut Report) {
     cx.rep.notes.push("entry points named *.path_str / *.root_decode / pod.try_from_bytes exercise EXTERNAL crates (derivation-path, k256, bytemuck): no Lean model of the parser itself, predicate only (bytemuck, MsgId: length rule modelled)".into());
     cx.rep.notes.push("heavy OT / VOLE entry points: the generator flags a handful of cases per round for the model (honest, structured-valid, one of each garbage class, a few mutations); all other cases of those entry points are predicate-only".into());
     cx.rep.notes.push("feature-gated serde entry points of sl-oblivious / sl-mpc-mate (GroupPolynomial, DLogProof, EndemicOTReceiver deserialisation) are NOT compiled into this harness (features off) and are not covered".into());
-    let _ = (c05::ENC_VALUES, c15::NCONN);
 }
 
-// re-exports used by the sub-modules
-pub(crate) use {Cv as CurveCv, Field as _, PrimeField as _, Group as _, GroupEncoding as _, Rng as _, RngCore as _, TapeRng as Tape};
